@@ -87,20 +87,21 @@ def lean_sources_hash():
 def lean_obligations(prop, thorough=False):
     """Builds Props.<prop> and the driver, audits axioms.  Returns a dict."""
     res = {"ok": False, "theorems": [], "axioms": {}, "errors": [], "build_s": 0.0}
-    props_file = LEAN / "TarpcModel" / "Props" / f"{prop}.lean"
+    props_files = sorted((LEAN / "TarpcModel" / "Props").glob(f"{prop}*.lean"))
+    mods = [f"TarpcModel.Props.{f.stem}" for f in props_files]
     t0 = time.time()
     with Lock("lake"):
         rc, out = sh([sys.executable, str(VERIF / "tools" / "translate.py")])
         if rc != 0:
             res["errors"].append("translator: " + out.strip()[:600])
-        rc, out = sh(["lake", "build", f"TarpcModel.Props.{prop}", "driver"], cwd=LEAN, timeout=3000)
+        rc, out = sh(["lake", "build"] + mods + ["driver"], cwd=LEAN, timeout=3000)
         res["build_s"] = round(time.time() - t0, 1)
         if rc != 0:
             errs = [l for l in out.splitlines() if "error" in l][:8]
             res["errors"] += ["lake build failed"] + errs
             res["build_log"] = out[-4000:]
             return res
-        names = theorem_names(props_file)
+        names = [n for f in props_files for n in theorem_names(f)]
         res["theorems"] = names
         audit_dir = CACHE / "audit"; audit_dir.mkdir(parents=True, exist_ok=True)
         key = lean_sources_hash()
@@ -109,7 +110,7 @@ def lean_obligations(prop, thorough=False):
             res["axioms"] = json.loads(cache_file.read_text())
         else:
             af = audit_dir / f"{prop}.lean"
-            af.write_text(f"import TarpcModel.Props.{prop}\n" + "".join(f"#print axioms {n}\n" for n in names))
+            af.write_text("".join(f"import {m}\n" for m in mods) + "".join(f"#print axioms {n}\n" for n in names))
             rc, out = sh(["lake", "env", "lean", str(af)], cwd=LEAN, timeout=900)
             axioms, cur = {}, None
             text = out.replace("\n  ", " ")
@@ -123,10 +124,11 @@ def lean_obligations(prop, thorough=False):
                     old.unlink()
                 cache_file.write_text(json.dumps(axioms))
         if thorough:
-            rc, out = sh(["lake", "env", "leanchecker", f"TarpcModel.Props.{prop}"], cwd=LEAN, timeout=1800)
-            res["leanchecker_rc"] = rc
-            if rc != 0:
-                res["errors"].append("leanchecker rejected Props module: " + out[-500:])
+            for m in mods:
+                rc, out = sh(["lake", "env", "leanchecker", m], cwd=LEAN, timeout=1800)
+                res["leanchecker_rc"] = rc
+                if rc != 0:
+                    res["errors"].append(f"leanchecker rejected {m}: " + out[-500:])
     for n in names:
         if n not in res["axioms"]:
             res["errors"].append(f"no axiom report for {n}")
